@@ -428,6 +428,33 @@ func (e *Engine) verifyFunc(key string, timeoutS, seed int, allSolvers bool, sol
 	fe.setupEntry(fr)
 	fe.runFunction(fr, fr.entry, fe.paramVals(fr), nil)
 	res.GenMS = time.Since(t0).Milliseconds()
+	if con != nil {
+		// every site a contract is keyed to must exist in the current code (fail closed)
+		for site := range con.Calls {
+			if _, ok := fr.callIdx[site]; !ok {
+				fe.errorf("%s: contract refers to call site %s which does not exist (have %v)", res.Name, site, callKeys(fr))
+			}
+		}
+		for _, g := range con.Ghosts {
+			site := strings.TrimPrefix(g.After, "before:")
+			if site != "return" {
+				if _, ok := fr.callIdx[site]; !ok {
+					fe.errorf("%s: ghost update refers to call site %s which does not exist", res.Name, site)
+				}
+			}
+		}
+		for k := range con.Loops {
+			found := false
+			for _, li := range fr.loops {
+				if li.ord == k {
+					found = true
+				}
+			}
+			if !found {
+				fe.errorf("%s: contract refers to loop[%d] which does not exist", res.Name, k)
+			}
+		}
+	}
 	res.Errs = append(res.Errs, fe.errs...)
 	res.Unknown = fe.unknown
 	res.Used = fe.used
